@@ -31,13 +31,59 @@ var getters = []string{"t1", "t2", "t3", "t4"}
 type svc struct {
 	mu  sync.Mutex
 	ver map[string]int
+	// content of each version: a new version usually carries new bytes, but now and then it carries the bytes of the version
+	// before the previous one again (a value rolled back and forth, a key re-issued). cv[name][v] is the version whose bytes
+	// version v carries; the bytes handed to a builder therefore stand for every install with that content.
+	cv map[string]map[int]int
+}
+
+func (s *svc) content(name string, v int) int {
+	if m := s.cv[name]; m != nil {
+		if c, ok := m[v]; ok {
+			return c
+		}
+	}
+	return v
+}
+
+// bump installs the next version of name (caller holds s.mu).
+func (s *svc) bump(name string) {
+	s.ver[name]++
+	v := s.ver[name]
+	if s.cv == nil {
+		s.cv = map[string]map[int]int{}
+	}
+	if s.cv[name] == nil {
+		s.cv[name] = map[int]int{}
+	}
+	c := v
+	if v >= 3 && (v*7+len(name))%3 == 0 {
+		c = s.content(name, v-2)
+	}
+	s.cv[name][v] = c
+}
+
+// installsWith: the installs (0-based: version - 1) whose content is the one of content version c.
+func (s *svc) installsWith(name string, c int) []int {
+	s.mu.Lock()
+	defer s.mu.Unlock()
+	out := []int{}
+	for v := 1; v <= s.ver[name]; v++ {
+		if s.content(name, v) == c {
+			out = append(out, v-1)
+		}
+	}
+	if len(out) == 0 {
+		out = append(out, c-1)
+	}
+	return out
 }
 
 func (s *svc) Get(ctx context.Context, name string) (*api.SecretValue, error) {
 	s.mu.Lock()
 	defer s.mu.Unlock()
 	v := s.ver[name]
-	return &api.SecretValue{Value: store.Value(name, v), Version: api.SecretVersion(v)}, nil
+	return &api.SecretValue{Value: store.Value(name, s.content(name, v)), Version: api.SecretVersion(v)}, nil
 }
 func (s *svc) GetIfChanged(ctx context.Context, name string, old api.SecretVersion) (*api.SecretValue, error) {
 	s.mu.Lock()
@@ -46,7 +92,7 @@ func (s *svc) GetIfChanged(ctx context.Context, name string, old api.SecretVersi
 	if int(old) == v {
 		return nil, api.ErrValueNotChanged
 	}
-	return &api.SecretValue{Value: store.Value(name, v), Version: api.SecretVersion(v)}, nil
+	return &api.SecretValue{Value: store.Value(name, s.content(name, v)), Version: api.SecretVersion(v)}, nil
 }
 
 // flakyCache: a cache whose writes fail on demand (a full disk); the store must still notify watchers.
@@ -70,7 +116,7 @@ func (c *flakyCache) Read() ([]byte, error) { c.mu.Lock(); defer c.mu.Unlock(); 
 // cval is the value type T of the updaters: it knows what it was built from and counts its Close calls.
 type cval struct {
 	h      *hist
-	from   int
+	from   []int
 	id     int
 	closed atomic.Int32
 }
@@ -79,7 +125,7 @@ func (c *cval) Close() error {
 	n := c.closed.Add(1)
 	c.h.log(Event{"ev": "vclose", "id": c.id})
 	if n > 1 {
-		c.h.note("value %d (built from install %d) was closed %d times", c.id, c.from, n)
+		c.h.note("value %d (built from install %v) was closed %d times", c.id, c.from, n)
 	}
 	return nil
 }
@@ -136,16 +182,17 @@ func (h *hist) builder(x, name string) func([]byte) (*cval, error) {
 		if !whole || n != name {
 			h.note("builder of %s was given a torn or foreign value %q", x, b)
 		}
+		from := h.sv.installsWith(name, ver) // every install these bytes stand for
 		h.mu.Lock()
 		defer h.mu.Unlock()
 		init := !h.created[x]
 		if h.failing[x] {
-			h.events = append(h.events, Event{"ev": "build", "u": x, "from": ver - 1, "id": 0, "ok": "f", "init": tf(init)})
+			h.events = append(h.events, Event{"ev": "build", "u": x, "from": from, "id": 0, "ok": "f", "init": tf(init)})
 			return nil, errors.New("builder fails (scripted)")
 		}
 		id := h.nextID
 		h.nextID++
-		h.events = append(h.events, Event{"ev": "build", "u": x, "from": ver - 1, "id": id, "ok": "t", "init": tf(init)})
+		h.events = append(h.events, Event{"ev": "build", "u": x, "from": from, "id": id, "ok": "t", "init": tf(init)})
 		if g := h.gate[x]; g != nil {
 			// a slow builder: whatever happens now happens between "the secret was read" and "the value is in place"
 			h.mu.Unlock()
@@ -153,7 +200,7 @@ func (h *hist) builder(x, name string) func([]byte) (*cval, error) {
 			<-g
 			h.mu.Lock()
 		}
-		return &cval{h: h, from: ver - 1, id: id}, nil
+		return &cval{h: h, from: from, id: id}, nil
 	}
 }
 
@@ -162,7 +209,7 @@ func (h *hist) install(S []string) {
 	h.log(Event{"ev": "ibegin", "names": S})
 	h.sv.mu.Lock()
 	for _, n := range S {
-		h.sv.ver[n]++
+		h.sv.bump(n)
 	}
 	h.sv.mu.Unlock()
 	if err := h.st.Refresh(context.Background()); err != nil && !h.cache.fail.Load() {
@@ -210,7 +257,7 @@ func (h *hist) get(t, x string, withErr bool) {
 	}
 	if v == nil {
 		h.note("Get of %s returned nil", x)
-		h.log(Event{"ev": "gend", "t": t, "u": x, "id": -1, "from": -1, "err": e})
+		h.log(Event{"ev": "gend", "t": t, "u": x, "id": -1, "from": []int{-1}, "err": e})
 		return
 	}
 	if withErr && v.closed.Load() != 0 {
